@@ -52,8 +52,9 @@ var (
 		name string
 		args []any
 	}
-	// InterfaceRegistry is set by the models package (registers ibc-go's interface implementations).
+	// InterfaceRegistry is built on first use by RegistryBuilder, which the models package sets (ibc-go's interface implementations).
 	InterfaceRegistry codectypes.InterfaceRegistry
+	RegistryBuilder   func() codectypes.InterfaceRegistry
 )
 
 // RegisterType tells the native replay which Go type a stored value decodes to (engine: no-op).
@@ -329,7 +330,11 @@ func nativeSnapGet(snap int, key []byte) []byte { return snapshots[snap][string(
 
 func nativeCodec() *codec.ProtoCodec {
 	if InterfaceRegistry == nil {
-		InterfaceRegistry = codectypes.NewInterfaceRegistry()
+		if RegistryBuilder != nil {
+			InterfaceRegistry = RegistryBuilder()
+		} else {
+			InterfaceRegistry = codectypes.NewInterfaceRegistry()
+		}
 	}
 	return codec.NewProtoCodec(InterfaceRegistry)
 }
